@@ -289,3 +289,17 @@ pub fn hexdigit(nibble: u32, upper: bool) -> u8 {
         b'a' + (n - 10)
     }
 }
+
+
+/// A user-defined channel order over a raw byte-array "colour": array slot k is channel k (the way a 64-bit RGBA order over
+/// `[u8; 8]` would be written by a user of `ComponentOrder`). Lets the integer forms of every width be compared with the
+/// array form.
+pub struct ByteOrderProbe;
+impl<const N: usize> palette::cast::ComponentOrder<[u8; N], [u8; N]> for ByteOrderProbe {
+    fn pack(color: [u8; N]) -> [u8; N] {
+        color
+    }
+    fn unpack(packed: [u8; N]) -> [u8; N] {
+        packed
+    }
+}
